@@ -2953,7 +2953,7 @@ namespace awkward {
                     current_error_ = util::ForthError::stack_overflow;         \
                     return;                                                    \
                   }                                                            \
-                  stack_push((I)value);                                        \
+                  stack_push((T)value);                                        \
                 }                                                              \
                 break;                                                         \
               }
@@ -2979,7 +2979,7 @@ namespace awkward {
                     current_error_ = util::ForthError::stack_overflow;         \
                     return;                                                    \
                   }                                                            \
-                  stack_push((I)value);                                        \
+                  stack_push((T)value);                                        \
                 }                                                              \
                 break;                                                         \
               }
@@ -3257,7 +3257,7 @@ namespace awkward {
                 current_error_ = util::ForthError::stack_overflow;
                 return;
               }
-              stack_push((I)current_inputs_[(IndexTypeOf<int64_t>)in_num].get()->len());
+              stack_push((T)current_inputs_[(IndexTypeOf<int64_t>)in_num].get()->len());
               break;
             }
 
@@ -3268,7 +3268,7 @@ namespace awkward {
                 current_error_ = util::ForthError::stack_overflow;
                 return;
               }
-              stack_push((I)current_inputs_[(IndexTypeOf<int64_t>)in_num].get()->pos());
+              stack_push((T)current_inputs_[(IndexTypeOf<int64_t>)in_num].get()->pos());
               break;
             }
 
@@ -3364,7 +3364,7 @@ namespace awkward {
                 current_error_ = util::ForthError::stack_overflow;
                 return;
               }
-              stack_push((I)current_outputs_[(IndexTypeOf<int64_t>)out_num].get()->len());
+              stack_push((T)current_outputs_[(IndexTypeOf<int64_t>)out_num].get()->len());
               break;
             }
 
@@ -3428,7 +3428,7 @@ namespace awkward {
                 current_error_ = util::ForthError::stack_overflow;
                 return;
               }
-              stack_push((I)do_i());
+              stack_push((T)do_i());
               break;
             }
 
@@ -3437,7 +3437,7 @@ namespace awkward {
                 current_error_ = util::ForthError::stack_overflow;
                 return;
               }
-              stack_push((I)do_j());
+              stack_push((T)do_j());
               break;
             }
 
@@ -3446,7 +3446,7 @@ namespace awkward {
                 current_error_ = util::ForthError::stack_overflow;
                 return;
               }
-              stack_push((I)do_k());
+              stack_push((T)do_k());
               break;
             }
 
@@ -3650,7 +3650,10 @@ namespace awkward {
                 return;
               }
               T* top = stack_peek();
-              *top = abs(*top);
+              if (*top < 0) {
+                typedef typename std::make_unsigned<T>::type U;
+                *top = (T)((U)0 - (U)(*top));
+              }
               break;
             }
 
